@@ -664,6 +664,13 @@ def regenerate():
         if write_if_changed(os.path.join(GEN, 'Matchers.lean'), txt): res['changed'].append('Matchers.lean')
     except Exception as e:  # noqa
         res['errors'].append(f"Matchers: {type(e).__name__}: {e}")
+    try:
+        import flow_gen
+        txt, errs = flow_gen.gen_flow()
+        res['errors'] += [f"Flow: {x}" for x in errs]
+        if write_if_changed(os.path.join(GEN, 'Flow.lean'), txt): res['changed'].append('Flow.lean')
+    except Exception as e:  # noqa
+        res['errors'].append(f"Flow: {type(e).__name__}: {e}")
     return res
 
 
